@@ -291,29 +291,56 @@ def skeleton_part(run, tier):
         n_val = 0
         vocab = value_vocabulary(L)
         kmax = max(len(v) for v in vocab.values())
-        for i, p in enumerate(dv.prods):
-            if p.name not in dv.ctx:
-                continue
-            base = None
-            for k in range(kmax):
-                pools = LexPools(vocab, k)
-                try:
-                    body = c02u2.AT.text_of(dv.root_trees(p, [0] * len(dv.n_alternatives(p))), pools, lexemes)
-                except Exception:  # noqa
-                    break
-                if not pools.used:
-                    break           # no value token in this derivation
-                pre, suf = dv.ctx[p.name]
-                defaults = c02u2.AT.Pools()
-                pre_t = ' '.join(defaults.lexeme(t) if t in c02u2.AT.VALUE_TERMINALS else lexemes.get(t, t) for t in pre)
-                suf_t = ' '.join(defaults.lexeme(t) if t in c02u2.AT.VALUE_TERMINALS else lexemes.get(t, t) for t in suf)
-                sqls.append((' '.join(x for x in (pre_t, body, suf_t) if x), 'value vocabulary %d in %s' % (k, str(p).split('  [')[0])))
-                n_val += 1
+        # twice: with the shortest derivations as they are, and with derivations that prefer ID (then other value tokens) over keyword terminals
+        dv_plain = dv
+        for dv, dv_tag in ((dv_plain, ''), (c02u2.env_names(d)[0], ' [name-preferring derivations]')):
+            for i, p in enumerate(dv.prods):
+                if p.name not in dv.ctx:
+                    continue
+                # the shortest derivation, and every derivation with ONE nonterminal child replaced by an alternative that brings in value tokens
+                # the shortest one does not have (the shortest derivation of a table / column position is often a keyword such as ENGINES or *,
+                # so names in such positions would never be spelled with quoted / reserved / $ lexemes)
+                na = dv.n_alternatives(p)
+                cand = [[0] * len(na)]
+                for j in range(len(na)):
+                    for k_ in range(1, na[j]):
+                        pk = [0] * len(na)
+                        pk[j] = k_
+                        cand.append(pk)
+                base_kinds = None
+                for picks in cand:
+                    kinds_of_picks = None
+                    for k in range(kmax):
+                        pools = LexPools(vocab, k)
+                        try:
+                            body = c02u2.AT.text_of(dv.root_trees(p, picks), pools, lexemes)
+                        except Exception:  # noqa
+                            break
+                        if not pools.used:
+                            break           # no value token in this derivation
+                        kinds_of_picks = sorted(t for t, _ in pools.used)
+                        if any(picks):
+                            if base_kinds is not None and kinds_of_picks == base_kinds:
+                                break       # same value tokens as the shortest derivation
+                        pre, suf = dv.ctx[p.name]
+                        defaults = c02u2.AT.Pools()
+                        pre_t = ' '.join(defaults.lexeme(t) if t in c02u2.AT.VALUE_TERMINALS else lexemes.get(t, t) for t in pre)
+                        suf_t = ' '.join(defaults.lexeme(t) if t in c02u2.AT.VALUE_TERMINALS else lexemes.get(t, t) for t in suf)
+                        sqls.append((' '.join(x for x in (pre_t, body, suf_t) if x), 'value vocabulary %d in %s%s%s' % (k, str(p).split('  [')[0], (' with alternatives %s' % picks) if any(picks) else '', dv_tag)))
+                        n_val += 1
+                    if not any(picks):
+                        base_kinds = kinds_of_picks or []
+
+        dv = dv_plain
         run.extra['value_vocabulary_sentences_%s' % d] = n_val
         run.extra['alternative_derivation_sentences_%s' % d] = n_alt
         run.extra['production_pair_sentences_%s' % d] = n_pair
         run.extra['parenthesised_child_sentences_%s' % d] = n_par
         seen, n_ok, n_skip, n_bad, prods = set(), 0, 0, 0, set()
+        if os.environ.get('VERIF_DUMP_SQLS'):
+            with open(os.environ['VERIF_DUMP_SQLS'] + '.' + d, 'w') as f_:
+                for sql, origin in sqls:
+                    f_.write('%s\t%s\n' % (' '.join(sql.split()), origin))
         for sql, origin in sqls:
             if sql in seen:
                 continue
@@ -355,9 +382,29 @@ def skeleton_part(run, tier):
                 elif s1 is not None and d in ('mysql', 'sqlite') and "\\'" in s1 and 'LexError' in problem:
                     # to_string() has no dialect argument: a quote inside a string constant is written \' , which only the mindsdb lexer reads
                     key = 'roundtrip:printer:%s:string-constant-quote-escaped-for-a-lexer-without-escapes' % d
-                elif s1 is not None and re.search(r'=\s*-?\d+(\.\d+)?e[-+]?\d+', s1) and problem.startswith('re-parse raises'):
+                elif s1 is not None and re.search(r'[=\[,]\s*-?\d+(\.\d+)?e[-+]?\d+', s1) and problem.startswith('re-parse raises'):
                     # option values (USING / SET k = v) go through json.dumps: small and large floats come out in exponent notation
                     key = 'roundtrip:printer:%s:%s:option-float-printed-in-exponent-notation' % (d, type(a).__name__)
+                elif s1 is not None and re.search(r'(USING|SET|\(|,)\s*("[^"]*"|`[^`]*`)\s*=', sql) and problem.startswith('re-parse raises') \
+                        and any(re.search(r'(^|[\s(,])%s\s*=' % re.escape(k_[1:-1]), s1) for k_ in re.findall(r'(?:USING|SET|\(|,)\s*("[^"]*"|`[^`]*`)\s*=', sql)
+                                if not re.fullmatch(r'[A-Za-z_][A-Za-z_0-9]*', k_[1:-1]) or k_[1:-1].upper() in ('SELECT',)):
+                    # option NAMES (USING / SET "a b" = .., nested object keys) are printed bare by the option printers, whatever they contain
+                    key = 'roundtrip:printer:%s:%s:option-name-needing-quotes-printed-bare' % (d, type(a).__name__)
+                elif s1 is not None and type(a).__name__ == 'Describe' and re.match(r'DESCRIBE\s+("[^"]*"|`[^`]*`)\s+\S', sql):
+                    # DESCRIBE <type> <name>: the type word is printed as it was decoded
+                    key = 'roundtrip:printer:%s:Describe:type-word-needing-quotes-printed-bare' % d
+                elif s1 is not None and type(a).__name__ == 'Evaluate' and re.search(r'USING\s', sql) and problem.startswith('re-parse raises'):
+                    # the Evaluate printer writes option values bare (USING k=some text;)
+                    key = 'roundtrip:printer:%s:Evaluate:option-values-printed-bare' % d
+                elif s1 is not None and re.search(r'\b(select)\(', s1) and re.search(r'(`select`|"select")\s*\(', sql, re.I) and problem.startswith('re-parse raises'):
+                    key = 'roundtrip:printer:%s:%s:reserved-word-function-name-printed-bare' % (d, type(a).__name__)
+                elif s1 is not None and d in ('mysql', 'sqlite') and "\\'" in s1 and problem.startswith('re-parse raises'):
+                    key = 'roundtrip:printer:%s:string-constant-quote-escaped-for-a-lexer-without-escapes' % d
+                elif s1 is not None and (type(a).__name__ not in ('Select', 'Union', 'Intersect', 'Except', 'Insert', 'Update', 'Delete') or ' USING ' in s1) and '\\' in sql \
+                        and s1.count('\\') > sql.count('\\') and problem == 'tree differs after re-parse':
+                    # option values (USING / SET k = 'text', ENGINE 'text') are printed with json.dumps / repr(): every back-slash of the value
+                    # comes out doubled, and the lexer keeps a back-slash pair as two characters
+                    key = 'roundtrip:printer:%s:%s:option-string-back-slashes-doubled' % (d, type(a).__name__)
                 elif s1 is not None and type(a).__name__ == 'CreateAgent' and 'model=None' in s1:
                     key = 'roundtrip:printer:%s:CreateAgent:missing-model-printed-as-None' % d
                 elif s1 is not None and type(a).__name__ == 'Show' and re.fullmatch(r'SHOW ENGINE \S+ (MUTEX|STATUS)', ' '.join(sql.split())) \
